@@ -8,6 +8,7 @@ CONSTANTS
   RawCap = 10
   WarmCap = 2048
   Slack = {0}
+  FetchListens = TRUE
   DecListens = TRUE
 INVARIANT TInvA
 INVARIANT TInvB
